@@ -1,6 +1,7 @@
 /-
   C04 — Out-of-scope or inapplicable objects get NA; otherwise the rule's verdict stands.
 -/
+import ZlModel.Scope
 import ZlProofs.Lemmas.Framework
 namespace Zl.C04
 open Zl
@@ -129,5 +130,24 @@ def exLint : Lint Unit Unit := { md := { name := "e_x", source := "CABF_BR" }, c
 example : execute .cert ⟨false, true, true⟩ ⟨5, 0⟩ exLint () () = (.result Status.na "", [])
     ∧ execute .cert ⟨true, false, false⟩ ⟨5, 0⟩ exLint () () = (.result Status.warn "w", [.construct, .configure, .applies, .body]) := by
   decide
+
+
+/-! ## CA classification used by CheckApplies of most lints -/
+
+/-- root CA, subordinate CA and subscriber certificate are mutually exclusive, and the only certificates that are
+    none of the three are self-signed non-CA certificates -/
+theorem classification_exclusive (v : CAView) :
+    (isRootCA v && isSubCA v) = false ∧ (isRootCA v && isSubscriberCert v) = false ∧ (isSubCA v && isSubscriberCert v) = false := by
+  cases v with | mk a b => cases a <;> cases b <;> decide
+
+theorem classification_total (v : CAView) :
+    (isRootCA v || isSubCA v || isSubscriberCert v) = !(v.selfSigned && !v.isCA) := by
+  cases v with | mk a b => cases a <;> cases b <;> decide
+
+/-- a change of `SelfSigned` alone never turns a CA into a subscriber or back: it moves a CA between root and
+    subordinate, and a non-CA between subscriber and unclassified -/
+theorem selfSigned_only_moves_within_kind (a b b' : Bool) :
+    (isRootCA ⟨a, b⟩ || isSubCA ⟨a, b⟩) = (isRootCA ⟨a, b'⟩ || isSubCA ⟨a, b'⟩) := by
+  cases a <;> cases b <;> cases b' <;> decide
 
 end Zl.C04
